@@ -158,6 +158,25 @@ def check(chk):
                           [src(a).replace(" ", "") for a in c.args] == ["new_balls", "old_ball_count-new_balls"] for n, c in mb)
     chk.ob("DELTA-1", "missing balls are handled only when the count shrank, with the exact difference", ok, f.where(), construct=f.ident,
            text="missing balls diff")
+    # a count that dropped by N while idle is accounted for ball by ball: the single-ball report runs N times
+    f = bch.methods["_handle_missing_balls"]
+    chk.analysed(f)
+    cfg = f.cfg()
+    lost = [(n, c) for n, c in cfg.calls_named("lost_idle_ball")]
+    if not lost:
+        chk.missing("DELTA-1", "balls that vanished from an idle device are reported (lost_idle_ball)", f)
+    lid = repo.func(BD, "BallDevice.lost_idle_ball")
+    per_ball = any(isinstance(x, ast.AugAssign) and src(x.target) == "self.available_balls" and isinstance(x.op, ast.Sub) and src(x.value) == "1"
+                   for x in ast.walk(lid.node)) and len([p_ for p_ in lid.params() if p_ != "self"]) == 0
+    for n, c in lost:
+        loops = [h for h in cfg.nodes if h.kind == "loop" and any(x is c for st in h.ast.body for x in ast.walk(st))]
+        ok = (not per_ball) or (bool(loops) and src(loops[-1].ast.iter).replace(" ", "") == "range(missing_balls)")
+        chk.ob("DELTA-1", "each of the `missing_balls` balls lost while idle is reported (lost_idle_ball accounts for exactly one)", ok, f.where(c),
+               detail="one report for N missing balls: the playfield gains one ball although N are loose", construct=f.ident,
+               text="lost_idle_ball per missing ball")
+        st = [x.id for x, cc in cfg.calls_named("_set_ball_count") if cc.args and src(cc.args[0]) == "new_balls"]
+        chk.ob("DELTA-1", "the device's own count is set to the recount before the losses are reported", bool(st) and any(cfg.dominates(s_, n.id) for s_ in st),
+               f.where(c), construct=f.ident, text="recount stored before loss report")
     # available_balls transfer in setup_eject_chain
     f = repo.func(BD, "BallDevice.setup_eject_chain")
     chk.analysed(f)
@@ -290,6 +309,7 @@ def battery():
         # twins
         M("twin: path[-1]", BD, "        target = path[len(path) - 1]", "        target = path[-1]", None),
         M("twin: debug log moved", BC, "            if free_space <= incoming_balls:\n                self.debug_log(", "            if free_space <= incoming_balls:\n                self.info_log(", None),
+        M("N missing balls reported once", "mpf/devices/ball_device/ball_count_handler.py", "                    for _ in range(missing_balls):\n                        await self.ball_device.lost_idle_ball()", "                    await self.ball_device.lost_idle_ball()", "DELTA-1"),
     ]
 
 
